@@ -31,7 +31,7 @@ SHARD_TIMEOUT = {"quick": 600, "thorough": 3000}
 
 
 def plan(tier, seed):
-    n = 500 if tier == "quick" else 20000
+    n = 1600 if tier == "quick" else 20000
     parts = 4 if tier == "quick" else 16
     sh = [{"kind": "tridonic", "part": p, "n": n // parts} for p in range(parts)]
     sh += [{"kind": "serial", "driver": d, "part": p, "n": n // parts // 2} for d in ("luba", "sci") for p in range(2)]
